@@ -343,3 +343,66 @@ func CorpusLockFromOtherPhase(o sink, variant string) {
 	r.o.Sample(fmt.Sprintf("%s: a locked replica on the proposal justified by the forged lock: interrupted=%v why=%s branch=%s; commits: %s", r.name, res1.Interrupted, res1.Why, res1.Branch, commitsStr(s)))
 	r.end()
 }
+
+// CorpusCommitteeChange: a root-height bump under which the controller lists the same committee in another order (same
+// members, same stakes). A certificate formed at root height 10 stays meaningful only under the validator list of root
+// height 10.
+//   - variant "lock-carried-over": replica 1 alone locks at (10,0); everybody is reset to root height 11; two full rounds
+//     follow (the lock is re-proposed with its root-10 certificate). Agreement oracle.
+//   - variant "bitmap-for-other-committee": the Byzantine leader of (10,0) aggregates the PROPOSE_VOTEs of {0,1,2} into a
+//     certificate whose signer bitmap is laid out for the list of root height 11, and after the bump offers it as HighQc.
+//     Under the committee of its own root height the bitmap names {1,2,3} — replica 3 never signed: it must be rejected.
+func CorpusCommitteeChange(o sink, variant string) {
+	cfg := bftsim.Config{N: 4, Powers: []uint64{1, 1, 1, 1}, Byz: []int{0}, Root0: 10, CommitteeOrder: map[uint64][]int{11: {3, 2, 1, 0}}}
+	is0 := func(i int) bool { return i == 0 }
+	cfg.Salt = findSalt(cfg, map[bftsim.VR]func(int) bool{{Root: 10, Round: 0}: is0, {Root: 11, Round: 0}: is0})
+	r := newRun(o, "corpus/committee-reordered-at-root-bump/"+variant, cfg)
+	r.sigSuffix = "certificate-under-wrong-committee"
+	s := r.s
+	A := all(s)
+	r.elect(A, nil)
+	r.byzPropose(0, nil, "fresh")
+	var forged *lib.QuorumCertificate
+	if variant == "lock-carried-over" {
+		r.deliverAll(nil)
+		r.phases([]int{1, 2, 3}) // PROPOSE
+		r.phases(A)              // PROPOSE_VOTE
+		r.deliverAll(nil)
+		r.phases(A) // PRECOMMIT
+		r.deliverAll(func(e *bftsim.Envelope) bool { return e.To == 1 })
+		r.dropAll()
+		r.phases(r.inRound(A, 0)) // PRECOMMIT_VOTE: replica 1 locks
+	} else {
+		r.deliverAll(func(e *bftsim.Envelope) bool { return e.To != 3 }) // replica 3 never sees the proposal: it does not vote
+		r.phases([]int{1, 2, 3})                                         // PROPOSE
+		r.phases(A)                                                      // PROPOSE_VOTE
+		var votes []*bft.Message
+		for _, e := range s.Queue {
+			if e.Kind == "PROPOSE_VOTE" && e.To == 0 {
+				votes = append(votes, e.Msg)
+			}
+		}
+		forged = s.ByzCertForCommittee(votes, 11)
+		r.log("byz 0 aggregates the PROPOSE_VOTEs of %d replicas into a certificate whose bitmap is laid out for root height 11", len(votes))
+	}
+	r.dropAll()
+	r.toElection(A)
+	for _, i := range A {
+		r.reset(i, 11)
+	}
+	for round := 0; round < 2 && len(liveOf(s, A)) == 4; round++ {
+		r.elect(A, nil)
+		if forged != nil && round == 0 && s.Nodes[0].B.Phase == bft.Propose {
+			r.byzPropose(0, forged, "certificate-with-bitmap-of-another-committee")
+			r.o.Count("byz:propose:certificate-with-bitmap-of-another-committee")
+		}
+		if forged != nil {
+			s.ByzForgetLock(0)
+		}
+		r.runRound(A, 0)
+		r.dropAll()
+		r.toElectionOrCommit(liveOf(s, A))
+	}
+	r.o.Sample(fmt.Sprintf("%s: commits: %s", r.name, commitsStr(s)))
+	r.end()
+}
